@@ -52,6 +52,7 @@ pub fn passes(tier: &str) -> Vec<Pass> {
         mk("narrow-big/blob", Cfg { blob: true, ..one.clone() }, { let mut a = alpha_narrow(); a.ins = vec![(0, 0, 3), (0, 0, 0)]; a }, "", if q { 4 } else { 6 }, 3, if q { 5.0 } else { 120.0 }, Probe::Lite),
         mk("wide/batch-half-flushed", d.clone(), alpha_wide(), "batch_half_flushed", if q { 2 } else { 4 }, 1, if q { 3.0 } else { 120.0 }, Probe::Full),
         mk("wide/two-sealed-journals", d.clone(), alpha_wide(), "two_sealed_journals", if q { 2 } else { 4 }, 2, if q { 4.0 } else { 150.0 }, Probe::Full),
+        mk("wide/two-sealed-journals/small-journal-limit", Cfg { maxj: true, ..d.clone() }, alpha_wide(), "two_sealed_journals", if q { 2 } else { 4 }, 1, if q { 3.0 } else { 150.0 }, Probe::Full),
         mk("wide/sealed-journal-half-flushed", d.clone(), alpha_wide(), "sealed_journal_x_half_flushed", if q { 2 } else { 4 }, 1, if q { 3.0 } else { 150.0 }, Probe::Full),
         mk("wide/sealed-journal-all-record-kinds", d.clone(), alpha_wide(), "sealed_journal_all_kinds", if q { 2 } else { 4 }, 1, if q { 3.0 } else { 150.0 }, Probe::Full),
         mk("wide/single-writer-tx", Cfg { kind: DbKind::SingleWriter, ..d.clone() }, alpha_wide(), "", if q { 2 } else { 3 }, 2, if q { 3.0 } else { 60.0 }, Probe::Lite),
